@@ -23,7 +23,7 @@ EXPLANATION = ('hazan_peng_shashua run to (tested) convergence; (a) returned tab
 TOTALS = [0.5, 1.0, 10.0, 1000.0]
 DAMPINGS = [0.05, 0.1, 0.3, 0.5, 0.5, 0.7, 0.9, 0.95]
 SCHEDULE = [50, 50, 100, 200, 400, 800, 1600, 3200, 6400]
-KINDS = ['chain', 'star', 'fgtree', 'rip', 'loop', 'loop', 'dense', 'dense', 'arbitrary', 'nested', 'sameset', 'deep']
+KINDS = ['chain', 'star', 'fgtree', 'rip', 'loop', 'loop', 'dense', 'dense', 'arbitrary', 'nested', 'sameset', 'deep', 'ring', 'ring']
 
 
 # ---------------------------------------------------------------------------------------------
@@ -340,7 +340,15 @@ def run(res, drv, tier, seed):
         probe = rggen.build_rg(dom, cl, total, convex=True, minimal=minimal)
         pots = rggen.gen_pots(r, dom, list(probe.cliques), transposed=0.3 if r.random() < 0.25 else 0.0)
         fpots = rggen.pots_float(pots)
-        rg, calls, used, size = solve(dom, cl, total, damping, minimal, fpots, ccap)
+        try:
+            rg, calls, used, size = solve(dom, cl, total, damping, minimal, fpots, ccap)
+        except Exception as e:      # the oracle raises on a valid input: a failing input, never an infrastructure error
+            canon = {'dom': dom, 'cliques': cl, 'total': total, 'damping': damping, 'minimal': minimal, 'pots': gmgen.enc_pots(pots), 'cap': ccap}
+            res.case(canon, True)
+            res.violation('failing-input', f'hazan_peng_shashua raises {type(e).__name__}: {str(e)[:160]} (cliques {cl}, domain {dom}, damping {damping})',
+                          {'request': canon}, key=f'hps:raises:{type(e).__name__}')
+            caps.pop()
+            continue
         work.append((case, rg, calls, used, size, fpots, pots))
         reqs.append(cert_request(dom, rg, total, fpots, calls[-1]['tab'], size))
         reqs.append({'op': 'hps', 'dom': dom, 'rg': rggen.slim_rg(rggen.export_rg(rg)), 'total': enc_f(total), 'damping': enc_f(damping),
